@@ -726,7 +726,8 @@ int NinjaMain::ToolWinCodePage(const Options* options, int argc, char* argv[]) {
 #endif
 
 enum PrintCommandMode { PCM_Single, PCM_All };
-void PrintCommands(Edge* edge, EdgeSet* seen, PrintCommandMode mode) {
+void PrintCommands(Edge* edge, EdgeSet* seen, PrintCommandMode mode,
+                   vector<Node*>* validations) {
   if (!edge)
     return;
   if (!seen->insert(edge).second)
@@ -735,7 +736,12 @@ void PrintCommands(Edge* edge, EdgeSet* seen, PrintCommandMode mode) {
   if (mode == PCM_All) {
     for (vector<Node*>::iterator in = edge->inputs_.begin();
          in != edge->inputs_.end(); ++in)
-      PrintCommands((*in)->in_edge(), seen, mode);
+      PrintCommands((*in)->in_edge(), seen, mode, validations);
+    // A build of this edge also builds its validation targets.  They impose
+    // no order on the edge and may depend on its outputs, so they are
+    // visited as additional targets once the current chain is complete.
+    validations->insert(validations->end(), edge->validations_.begin(),
+                        edge->validations_.end());
   }
 
   if (!edge->is_phony())
@@ -778,8 +784,11 @@ int NinjaMain::ToolCommands(const Options* options, int argc, char* argv[]) {
   }
 
   EdgeSet seen;
+  vector<Node*> validations;
   for (vector<Node*>::iterator in = nodes.begin(); in != nodes.end(); ++in)
-    PrintCommands((*in)->in_edge(), &seen, mode);
+    PrintCommands((*in)->in_edge(), &seen, mode, &validations);
+  for (size_t i = 0; i < validations.size(); ++i)
+    PrintCommands(validations[i]->in_edge(), &seen, mode, &validations);
 
   return 0;
 }
